@@ -16,6 +16,12 @@ Protocol (one op per line; the first line of a case is `cfg`):
   many n <op>                                            the op (err, hb, tick c, tickd, timeouts, start, renew n r, renewd) n times
                                                           (1..3000), only the last observation is shown: fills the event log to
                                                           its capacity
+  race j <opA> | <opB>                                   two OVERLAPPING calls on the current lifecycle: thread A makes call opA and
+                                                          is held back just before its j-th lock acquisition (0 = before it takes
+                                                          the lock at all) while thread B makes call opB (until it returns or waits
+                                                          for the lock); ret is `retA/retB`, events and lock trace carry a/b.
+                                                          Search axis (OS threads are outside the quantifier); judged against the
+                                                          text and against both sequential orders run on the real code
   cb 0|1|2                                               callbacks of the current lifecycle from now on: return / on_phase_change
                                                           raises / on_senescence raises (each after recording the event);
                                                           a call ended by that exception shows ret `!`  (outside the property's
@@ -39,6 +45,7 @@ RS = {"telomere_depletion": "dep", "error_accumulation": "err", "timeout": "time
       "resource_exhaustion": "res", "manual_trigger": "man"}
 LIFE_UNIT = 900_000_000      # quarter hour in microseconds
 IDLE_UNIT = 15_000_000       # quarter minute in microseconds
+DAY = 86_400_000_000         # one day in microseconds
 
 _LOCK_T = type(threading.Lock())
 _RLOCK_T = type(threading.RLock())
@@ -56,9 +63,13 @@ class RecLock:
         self.depth = 0
         self.events: list[str] = []
         self.hung = False
+        self.race = None          # a `Race` while two calls overlap (protocol line `race`)
+        self.tags: dict = {}      # thread ident -> "a" / "b" while two calls overlap
 
     def acquire(self, *a, **k):
         me = threading.get_ident()
+        if self.race is not None:
+            self.race.before_acquire(me, self)
         if self.kind == "Lock" and self.owner == me:
             self.hung = True
             raise Hang("holder re-acquires a non-reentrant lock")
@@ -66,15 +77,16 @@ class RecLock:
         if ok:
             self.owner = me
             self.depth += 1
-            self.events.append("A")
+            self.events.append(self.tags.get(me, "") + "A")
         return ok
 
     def release(self):
-        self.inner.release()
+        me = threading.get_ident()
         self.depth -= 1
         if self.depth <= 0:
             self.owner = None
-        self.events.append("R")
+        self.events.append(self.tags.get(me, "") + "R")
+        self.inner.release()
 
     def __enter__(self):
         self.acquire()
@@ -84,7 +96,34 @@ class RecLock:
         self.release()
 
 
+class Race:
+    """Two overlapping calls on one lifecycle, deterministically interleaved at the lock: thread A is held back just before
+    its `j`-th call of `lock.acquire` (0 = before it takes the lock for the first time, i.e. after whatever the method does
+    BEFORE queueing on the lock); meanwhile thread B runs its call until it returns or has to wait for the lock A holds;
+    then A continues.  If A never gets that far it simply finishes first."""
+
+    def __init__(self, j):
+        self.j = j
+        self.thread_a = None
+        self.n_a = 0
+        self.parked_once = False
+        self.a_event = threading.Event()      # A is parked or has finished
+        self.b_event = threading.Event()      # B has finished or waits for the lock
+        self.resume = threading.Event()
+
+    def before_acquire(self, me, lock):
+        if threading.current_thread() is self.thread_a:      # (thread idents are re-used once a thread has finished)
+            if self.n_a == self.j and not self.parked_once:
+                self.parked_once = True
+                self.a_event.set()
+                self.resume.wait(20)
+            self.n_a += 1
+        elif lock.owner is not None and lock.owner != me:
+            self.b_event.set()
+
+
 MANY_OK = ("err", "hb", "tick", "tickd", "timeouts", "start", "renew", "renewd")
+RACE_OK = ("start", "tick", "err", "hb", "timeouts", "renew", "apo", "term", "rst", "tickd", "tickk", "renewd", "renewk", "apor")
 
 
 class _Boom(Exception):
@@ -109,7 +148,7 @@ class C09(Prop):
         "tick:senescent", "tick:senescent-depleted", "err:threshold", "err:threshold-noop", "err:rate", "err:rate-noop",
         "err:ok", "hb", "timeouts:inactive", "timeouts:lifetime", "timeouts:idle", "timeouts:ok", "renew:disallowed",
         "renew:terminated", "renew:recover", "renew:extend", "apo:terminated", "apo:go", "term", "reset", "adv",
-        "new", "use:old", "use:fresh", "set", "cb", "cb:raised", "many"]
+        "new", "use:old", "use:fresh", "set", "cb", "cb:raised", "many", "race", "race:a-first", "race:b-first"]
     assumptions = [
         "tick cost and renew amount are natural numbers (a negative cost/amount is outside the property's quantifier)",
         "on_phase_change / on_senescence callbacks return (callbacks that RAISE are explored too: model stepCb, theorem "
@@ -190,17 +229,46 @@ class C09(Prop):
         a = rng.random() < 0.75
         l = rng.choice(["none", "none", "1", "2", "4", "0"])
         i = rng.choice(["none", "none", "1", "4", "40", "0"])
+        if rng.random() < 0.12:
+            # limits of a day and more (a duration has a days part and a within-day part): 23 h 45 min, 24 h, 24 h 15 min,
+            # 25 h, 2 days, 49 h / 23 h 59 min 45 s, 24 h, 24 h 15 s, 25 h
+            l = rng.choice([l, "95", "96", "97", "100", "192", "196"])
+            i = rng.choice([i, "5759", "5760", "5761", "6000"])
         return m, e, a, l, i
+
+    @staticmethod
+    def _rand_gap(rng, lims, long_bias=False):
+        """clock advance: short, on / around a limit, the clock standing still, and LONG gaps - whole days plus a remainder
+        that is below / on / above a limit (a duration compared through its within-day part only would miss those),
+        exactly one day, a day +- 1 us, weeks"""
+        opts = [1, 1000, 60_000_000]
+        for lim in lims:
+            opts += [lim - 1, lim, lim + 1, lim // 2, lim]
+        if rng.random() < (0.45 if long_bias else 0.2):
+            k = rng.choice([1, 1, 1, 2, 3, 7, 30, 365])
+            rem = [0, 0, 1, 1_000_000, 300_000_000, DAY - 1, DAY // 2]
+            for lim in lims:
+                rem += [lim % DAY // 2, max(lim % DAY - 1, 0), lim % DAY, lim % DAY + 1, lim // 3 % DAY]
+            return k * DAY + rng.choice(rem)
+        if rng.random() < 0.05:
+            return rng.choice([0, 0, DAY - 1, 3_600_000_000, 23 * 3_600_000_000])
+        return rng.choice(opts)
 
     def _rand_case(self, rng):
         m, e, a, l, i = self._rand_cfg(rng)
+        prof = rng.choice(["mixed", "mixed", "long", "errors", "time", "early", "resets", "multi", "multi", "reconf", "cbraise", "biglog", "race"])
+        if prof == "time" and l in ("none", "0") and i in ("none", "0"):
+            # the time profile is about the limits: at least one of them is set
+            if rng.random() < 0.5:
+                l = rng.choice(["1", "2", "4", "96", "100"])
+            else:
+                i = rng.choice(["1", "4", "40", "240", "5760"])
         lims = []
         for v, unit in ((l, LIFE_UNIT), (i, IDLE_UNIT)):
             if v not in ("none", "0"):
                 lims.append(int(v) * unit)
-        prof = rng.choice(["mixed", "mixed", "long", "errors", "time", "early", "resets", "multi", "multi", "reconf", "cbraise", "biglog"])
         w = {"start": 2, "tick": 8, "err": 3, "hb": 1, "timeouts": 3, "renew": 3, "apo": 1, "term": 1, "rst": 1, "adv": 3,
-             "use": 0, "new": 0, "set": 0.4, "cb": 0.15, "many": 0.05}
+             "use": 0, "new": 0, "set": 0.4, "cb": 0.15, "many": 0.05, "race": 0.15}
         if prof == "long":
             w.update(tick=16, apo=0.2, term=0.2, rst=0.3)
         elif prof == "errors":
@@ -219,6 +287,10 @@ class C09(Prop):
             # callbacks that raise (outside the assumption "callbacks return"): the call must still leave a legal state,
             # release the lock, and the next calls must work
             w.update(cb=4, err=5, renew=4, timeouts=3, adv=3, tick=9, apo=1, term=1, use=1)
+        elif prof == "race":
+            # two overlapping calls on one lifecycle (thread A held back at the lock while B makes its call), after and
+            # before ordinary history
+            w.update(race=7, tick=8, err=3, renew=3, apo=0.6, term=0.6, rst=0.8, many=0, use=1, cb=0.3)
         elif prof == "reconf":
             # public configuration attributes re-assigned on the live lifecycle
             w.update(set=7, err=5, renew=5, timeouts=4, adv=4, tick=8)
@@ -253,6 +325,16 @@ class C09(Prop):
                 lines.append("apo" if rng.random() > 0.3 else "apor")
             elif op == "cb":
                 lines.append(f"cb {rng.choice([1, 1, 2, 0])}")
+            elif op == "race":
+                def one():
+                    k_ = rng.choice(["tick", "tick", "tick", "tickd", "err", "renew", "renew", "apo", "term", "term", "rst", "start",
+                                     "hb", "timeouts", "apor", "renewd"])
+                    if k_ == "tick":
+                        return f"tick {rng.choice([1, 1, 1, 0, 2, max(mm - 1, 0), mm])}"
+                    if k_ == "renew":
+                        return f"renew {rng.choice(['none', '1', str(mm)])} {rng.choice([0, 1])}"
+                    return k_
+                lines.append(f"race {rng.choice([0, 0, 0, 1, 1, 2])} {one()} | {one()}")
             elif op == "many":
                 n_ = rng.choice([2, 3, 10, 50, 100, 300, 500, 998, 999, 1000, 1001, 1200])
                 lines.append(f"many {n_} " + rng.choice(["err", "err", "err", "hb", "tick 0", "tick 1", "timeouts", "start",
@@ -264,19 +346,16 @@ class C09(Prop):
                 elif what == "allow":
                     v = rng.choice([0, 1])
                 elif what == "life":
-                    v = rng.choice(["none", 0, 1, 2, 4])
+                    v = rng.choice(["none", 0, 1, 2, 4, 4, 96, 100])
                     if v not in ("none", 0):
                         lims.append(v * LIFE_UNIT)
                 else:
-                    v = rng.choice(["none", 0, 1, 4, 40])
+                    v = rng.choice(["none", 0, 1, 4, 40, 240, 5760])
                     if v not in ("none", 0):
                         lims.append(v * IDLE_UNIT)
                 lines.append(f"set {what} {v}")
             elif op == "adv":
-                opts = [1, 1000, 60_000_000]
-                for lim in lims:
-                    opts += [lim - 1, lim, lim + 1, lim // 2, lim]
-                lines.append(f"adv {rng.choice(opts)}")
+                lines.append(f"adv {self._rand_gap(rng, lims, prof == 'time')}")
             elif op == "use":
                 cur = rng.choice([0, 1, 1, 2])
                 mcur.setdefault(cur, m)
@@ -330,7 +409,43 @@ class C09(Prop):
             for k in range(1, depth + 1):
                 for seq in itertools.product(self.ALPHA2, repeat=k):
                     cases2.append({"lines": [cfg] + list(seq), "note": f"exhaustive two lifecycles depth {k}"})
-        return [{"name": "all op sequences over a 12-op alphabet, (configuration, max length) = "
+        # time limits x clock gaps: short, on the boundary, the clock standing still, whole days plus a remainder below / on /
+        # above the limit, weeks; the limit below and above one day; lifetime and idle limit; with and without activity
+        # (heartbeat / tick) after the gap; a second gap after the first
+        cases3 = []
+        for l, i in (("4", "none"), ("none", "120"), ("2", "8"), ("100", "none"), ("none", "5761"), ("96", "5760")):
+            cfg = self._cfg(10, 3, True, l, i)
+            lims3 = [int(v) * u for v, u in ((l, LIFE_UNIT), (i, IDLE_UNIT)) if v != "none"]
+            gaps = {0, 1, DAY - 1, DAY, DAY + 1, 2 * DAY + 1_200_000_000, 7 * DAY, 30 * DAY + 1_000_000}
+            for lim in lims3:
+                gaps |= {lim - 1, lim, lim + 1, DAY + lim % DAY // 2, DAY + lim % DAY - 1, DAY + lim % DAY, 3 * DAY + lim - 1,
+                         3 * DAY + lim}
+            gaps = sorted(g for g in gaps if g >= 0)
+            if tier != "thorough":
+                gaps = gaps[::2] + [DAY, DAY + 1]
+            for g in gaps:
+                cases3.append({"lines": [cfg, "start", f"adv {g}", "timeouts", "tick 1"], "note": "exhaustive time gaps"})
+                cases3.append({"lines": [cfg, "tick 1", f"adv {g}", "hb", "timeouts", "tickd"], "note": "exhaustive time gaps"})
+                cases3.append({"lines": [cfg, "start", f"adv {g // 2}", "hb", f"adv {g - g // 2}", "timeouts", "tick 1"],
+                               "note": "exhaustive time gaps"})
+        # two overlapping calls: every ordered pair of mutators, A held back before its first / second lock acquisition,
+        # on a NASCENT / ACTIVE / SENESCENT / APOPTOTIC lifecycle, followed by a tick
+        cases4 = []
+        alpha_r = ["start", "tick 1", "err", "hb", "timeouts", "renew none 1", "apo", "term", "rst"]
+        pres = [[], ["start", "tick 1"], ["tick 3"]] + ([["apo"], ["start", "err"]] if tier == "thorough" else [])
+        for pre in pres:
+            for a_ in alpha_r:
+                for b_ in alpha_r:
+                    for j in ([0, 1] if a_.startswith("tick") or tier == "thorough" else [0]):
+                        cases4.append({"lines": [self._cfg(3, 2, True, "none", "none")] + pre + [f"race {j} {a_} | {b_}", "tick 1"],
+                                       "note": "exhaustive overlapping calls"})
+        return [{"name": "two overlapping calls on one lifecycle (thread A held back before its first / second lock acquisition "
+                         "while thread B makes its call): all ordered pairs over a 9-op alphabet after %d histories" % len(pres),
+                 "cases": cases4},
+                {"name": "time limits x clock gaps (0, 1 us, limit-1/limit/limit+1, a day-1/a day/a day+1, whole days plus a "
+                         "remainder below/on/above the limit, a week, a month; limits below and above one day), lifetime / idle, "
+                         "with and without activity after the gap", "cases": cases3},
+                {"name": "all op sequences over a 12-op alphabet, (configuration, max length) = "
                          + "; ".join(f"({c[4:]}, {d})" for c, d in plan), "cases": cases},
                 {"name": "two lifecycles interleaved with resets, all sequences over a 7-op alphabet (tick/err/rst/renew/start/"
                          "use 0/use 1), (configuration, max length) = " + "; ".join(f"({c[4:]}, {d})" for c, d in plan2),
@@ -344,12 +459,22 @@ class C09(Prop):
         mode = {"m": 0}           # 0 callbacks return, 1 on_phase_change raises, 2 on_senescence raises (after recording)
 
         def on_change(x, y):
-            evs.append(f"{PH.get(x.value, '?')}>{PH.get(y.value, '?')}")
+            tag = mode.get("tags", {}).get(threading.get_ident(), "")
+            evs.append(f"{tag}{PH.get(x.value, '?')}>{PH.get(y.value, '?')}")
+            if tag and y.value in ("apoptotic", "terminated"):
+                # an end state is announced while two calls overlap: what the lifecycle looked like at that moment
+                # (public accessors; they take no lock)
+                try:
+                    mode.setdefault("ended", []).append(
+                        (PH.get(y.value, "?"), obj.get_status().telomere_length, obj.get_statistics()["operations_count"]))
+                except Exception:   # noqa
+                    pass
             if mode["m"] == 1:
                 raise _Boom("on_phase_change")
 
         def on_sen(r):
-            evs.append(f"sen:{RS.get(r.value, '?')}")
+            tag = mode.get("tags", {}).get(threading.get_ident(), "")
+            evs.append(f"{tag}sen:{RS.get(r.value, '?')}")
             if mode["m"] == 2:
                 raise _Boom("on_senescence")
         m, e, a = int(t[1]), int(t[2]), t[3] == "1"
@@ -396,10 +521,103 @@ class C09(Prop):
         # renewal) and must change nothing
         import contextlib
         import io
+        extra: dict = {}
         with contextlib.redirect_stdout(io.StringIO()):
-            return self._run_lines(case, obs)
+            self._run_lines(case, obs, extra=extra)
+        return obs, extra
 
-    def _run_lines(self, case, obs):
+    @staticmethod
+    def _call_of(t, get):
+        """the call a method token list stands for (on the object `get()` returns), or None"""
+        if t == ["start"]:
+            return lambda: get().start()
+        if len(t) == 2 and t[0] in ("tick", "tickk") and _num(t[1]) is not None:
+            return (lambda: get().tick(int(t[1]))) if t[0] == "tick" else (lambda: get().tick(cost=int(t[1])))
+        if t == ["tickd"]:
+            return lambda: get().tick()
+        if t == ["err"]:
+            return lambda: get().record_error()
+        if t == ["hb"]:
+            return lambda: get().heartbeat()
+        if t == ["timeouts"]:
+            return lambda: get().check_timeouts()
+        if len(t) == 3 and t[0] in ("renew", "renewk") and (t[1] == "none" or _num(t[1]) is not None):
+            amt, r_ = (None if t[1] == "none" else int(t[1])), t[2] in ("1", "true", "True")
+            return (lambda: get().renew(amt, r_)) if t[0] == "renew" else (lambda: get().renew(reset_errors=r_, amount=amt))
+        if t == ["renewd"]:
+            return lambda: get().renew()
+        if t == ["apo"]:
+            return lambda: get().trigger_apoptosis()
+        if t == ["apor"]:
+            return lambda: get().trigger_apoptosis(reason="requested")
+        if t == ["term"]:
+            return lambda: get().terminate()
+        if t == ["rst"]:
+            return lambda: get().reset()
+        return None
+
+    def _race(self, ent, j, fa, fb):
+        """run the two calls on two threads, A held back before its j-th lock acquisition while B runs (class Race)"""
+        obj, evs, lock, _dead, mode = ent
+        del evs[:]
+        del lock.events[:]
+        ctl = Race(j)
+        res: dict = {}
+        tags: dict = {}
+        mode["tags"] = tags
+        mode["ended"] = []
+        lock.tags = tags
+        wd = max(self.watchdog_s, 0.5)
+
+        def body(name, fn, done):
+            me = threading.get_ident()
+            tags[me] = name
+            try:
+                res[name] = ("ok", fn())
+            except _Boom:
+                res[name] = ("ok", _Boom)
+            except BaseException as e:   # noqa
+                res[name] = ("raise", e)
+            finally:
+                done.set()
+        tha = threading.Thread(target=body, args=("a", fa, ctl.a_event), daemon=True)
+        thb = threading.Thread(target=body, args=("b", fb, ctl.b_event), daemon=True)
+        ctl.thread_a = tha
+        lock.race = ctl
+        try:
+            tha.start()
+            ctl.a_event.wait(wd)
+            thb.start()
+            ctl.b_event.wait(wd)
+            ctl.resume.set()
+            tha.join(wd)
+            thb.join(wd)
+            hung = tha.is_alive() or thb.is_alive()
+        finally:
+            lock.race = None
+        if hung or lock.hung or any(k_ == "raise" and isinstance(v_, Hang) for k_, v_ in res.values()):
+            if hung:
+                self.watchdog_hangs = getattr(self, "watchdog_hangs", 0) + 1
+                self.watchdog_s = 0.25 if self.watchdog_hangs < 20 else 0.1
+            ent[3] = True
+            ctl.resume.set()
+            mode["tags"], lock.tags = {}, {}
+            return "hang"
+        mode["tags"], lock.tags = {}, {}
+        for name in ("a", "b"):
+            if res[name][0] == "raise":
+                return f"raise:{type(res[name][1]).__name__}"
+        kind, v2 = call_guarded(lambda: self._obs2(obj), timeout=wd)
+        if kind != "ok":
+            ent[3] = kind == "hang"
+            return "hang" if kind == "hang" else f"raise:{type(v2).__name__}"
+        sh = lambda val: ("!" if val is _Boom else "-" if val is None else "1" if val is True else "0" if val is False
+                          else f"?{val!r}")
+        return (f"{sh(res['a'][1])}/{sh(res['b'][1])} {v2[0]} [{','.join(evs)}] {''.join(lock.events) or '-'} {v2[1]}")
+
+    def _run_lines(self, case, obs, no_lin=False, extra=None):
+        if extra is None:
+            extra = {}
         slots: dict = {}          # k -> [obj, evs, lock, dead]
         cur = 0
         cfg0 = "cfg 10 3 1 none none".split()
@@ -446,6 +664,30 @@ class C09(Prop):
                 construct(0, cfg0, True)
             ent = slots.get(cur)
             obj, evs, lock, dead, mode = ent if ent is not None else (None, [], None, True, {"m": 0})
+            # `race j <opA> | <opB>`: two overlapping calls on the current lifecycle (see class Race)
+            if len(t) >= 5 and t[0] == "race" and _num(t[1]) is not None and "|" in t[2:]:
+                k_ = t.index("|")
+                ta, tb = t[2:k_], t[k_ + 1:]
+                fa, fb = self._call_of(ta, lambda: obj), self._call_of(tb, lambda: obj)
+                if fa is None or fb is None or ta[0] not in RACE_OK or tb[0] not in RACE_OK or int(t[1]) > 3:
+                    obs.append("bad-op")
+                elif dead or obj is None:
+                    obs.append("dead")
+                else:
+                    o_ = self._race(ent, int(t[1]), fa, fb)
+                    obs.append(o_)
+                    if o_ != "hang" and not o_.startswith("raise:") and not no_lin:
+                        # the same two calls one after the other, in both orders, on the real code (same history before)
+                        i_ = len(obs) - 1
+                        saved_us = self.clock.us
+                        ser = []
+                        for first, second in ((ta, tb), (tb, ta)):
+                            sub: list = []
+                            self._run_lines({"lines": case["lines"][:i_] + [" ".join(first), " ".join(second)]}, sub, no_lin=True)
+                            ser.append(sub[-2:])
+                        self.clock.us = saved_us
+                        extra[i_] = {"serial": ser, "ended": list(mode.get("ended", []))}
+                continue
             if t == ["start"]:
                 fn = lambda: obj.start()
             elif len(t) == 2 and t[0] == "tick" and _num(t[1]) is not None:
@@ -522,7 +764,7 @@ class C09(Prop):
             ret = ("!" if val is _Boom else "-" if val is None else "1" if val is True else "0" if val is False
                    else f"?{val!r}")
             obs.append(f"{ret} {v2[0]} [{','.join(evs)}] {''.join(lock.events) or '-'} {v2[1]}")
-        return obs, None
+        return obs, extra
 
     # --- oracle: the property text on what the real code did ----------------------------------------------------
     def oracle(self, case, obs, extra):
@@ -619,6 +861,9 @@ class C09(Prop):
                     V("dead_never_ticks", f"is_operational() is False exactly when APOPTOTIC/TERMINATED [phase {ph}]", f[10], i)
                 if f[13] != f[2]:
                     V("length_in_bounds", f"operations_remaining == remaining length {ln}", f[13], i)
+            if op == "race":
+                self._judge_race(r, t, f, (extra or {}).get(i), now, V, i, line)
+                continue
             if op == "many":
                 # n repetitions, only the last observation: the counters of this lifecycle are kept up to date, the bounds and
                 # accessor clauses are judged on the final state, the per-call clauses are not (correspondence covers the rest)
@@ -756,6 +1001,100 @@ class C09(Prop):
                 r["last_touch"] = now
             r["phase"], r["length"] = ph, ln
         return out
+
+    def _judge_race(self, r, t, f, info, now, V, i, line):
+        """Two overlapping calls on one lifecycle (`race j a | b`).  OS threads are outside the property's quantifier
+        (sequential histories), so this is a search axis; what is judged comes from the text all the same:
+        * both calls return (hang / exception are judged by the caller);
+        * every announced change is legal for the call that announced it and the changes chain from the phase before to
+          the phase after; an end state is reached when asked for;
+        * TERMINATED is absorbing and APOPTOTIC/TERMINATED never tick: once an end state was announced, the remaining
+          length and the number of operations performed stay what they were at that moment;
+        * length within [0, max];
+        * the outcome of the two calls is the outcome of making them one after the other, in one of the two orders - the
+          sequential histories the property speaks about (both orders were run on the real code, same history before)."""
+        k_ = t.index("|")
+        ta, tb = t[2:k_], t[k_ + 1:]
+        canon = {"tickd": "tick", "tickk": "tick", "renewd": "renew", "renewk": "renew", "apor": "apo"}
+        opa, opb = canon.get(ta[0], ta[0]), canon.get(tb[0], tb[0])
+        by = {"a": opa, "b": opb}
+        rets = f[0].split("/")
+        ph, ln = f[1], int(f[2])
+        phase, length, maxo = r["phase"], r["length"], r["maxo"]
+        evs = [x for x in f[8][1:-1].split(",") if x]
+        has_rst = "rst" in (opa, opb)
+        c = phase
+        for ev in evs:
+            if ">" not in ev:
+                continue
+            who, (a, b) = ev[0], ev[1:].split(">")
+            op = by.get(who, "?")
+            legal = ((a, b) in (("N", "A"), ("A", "S")) or ((a, b) == ("S", "A") and op == "renew")
+                     or (b == "P" and op == "apo" and a != "T") or (b == "T" and op == "term"))
+            if not legal:
+                V("legal_transitions", "N>A, A>S, S>A by renew, *>P by apoptosis (not from T), *>T by terminate",
+                  f"{ev} during {line!r}", i)
+            if not has_rst:
+                if a != c:
+                    V("legal_transitions", f"transition starts from the current phase {c}", f"{ev} during {line!r}", i)
+                c = b
+        if not has_rst:
+            if c != ph:
+                V("legal_transitions", f"phase {c} (every change is announced)", f"{ph} after {line!r}", i)
+            if "term" in (opa, opb) and ph != "T":
+                V("end_states_reached", "TERMINATED after terminate()", ph, i)
+            if "apo" in (opa, opb) and ph not in ("P", "T"):
+                V("end_states_reached", "APOPTOTIC (or TERMINATED) after trigger_apoptosis()", ph, i)
+            if phase == "T" and ph != "T":
+                V("terminated_absorbing", "T", f"{ph} after {line!r}", i)
+            if phase in ("P", "T"):
+                for x, rr in ((opa, rets[0]), (opb, rets[-1])):
+                    if x == "tick" and rr != "0":
+                        V("dead_never_ticks", "False", f"{rr} from a tick during {line!r}", i)
+                if "renew" not in (opa, opb) and ln != length:
+                    V("dead_never_ticks", f"length stays {length}", f"{ln} after {line!r}", i)
+            for (eph, elen, eops) in (info or {}).get("ended", []):
+                # the end state was announced when the lifecycle had length elen and had performed eops operations
+                if eph == "T" and ph != "T":
+                    V("terminated_absorbing", "T once TERMINATED was announced", f"{ph} after {line!r}", i)
+                if int(f[4]) != eops or ln < elen or (eph == "T" and ln != elen):
+                    V("dead_never_ticks",
+                      f"once {eph} was announced (length {elen}, {eops} operations) no tick is performed: length and operations stay",
+                      f"length {ln}, {f[4]} operations after {line!r} (returns {f[0]})", i)
+        if not (0 <= ln <= maxo):
+            V("length_in_bounds", f"0 <= length <= {maxo}", f"{ln} after {line!r}", i)
+        ser = (info or {}).get("serial")
+        if ser and all(len(x) == 2 and all(len(o_.split(" ")) >= 15 for o_ in x) for x in ser):
+            (a1, b1), (b2, a2) = ser
+            outcomes = [(a1.split(" ")[0], b1.split(" ")[0]) + tuple(b1.split(" ")[1:8]),
+                        (a2.split(" ")[0], b2.split(" ")[0]) + tuple(a2.split(" ")[1:8])]
+            got = (rets[0], rets[-1]) + tuple(f[1:8])
+            if got not in outcomes:
+                V("dead_never_ticks" if ph in ("P", "T") else "legal_transitions",
+                  "the two overlapping calls amount to one of their two sequential orders: (retA, retB, phase, length, errors, "
+                  f"ops, renewals, reason, age) in {outcomes}", f"{got} after {line!r}", i)
+        # this lifecycle's own counters: the order of the two calls is not known to the oracle, so they are kept sound
+        n_err = (opa == "err") + (opb == "err")
+        renewed = [x for x, rr in ((ta, rets[0]), (tb, rets[-1])) if canon.get(x[0], x[0]) == "renew" and rr in ("1", "!")]
+        n_tick = sum(1 for o_ in (opa, opb) if o_ == "tick")
+        if has_rst:
+            r["unit_true"], r["start_at"], r["last_touch"], r["errs"], r["ops_lo"] = 0, None, None, -10 ** 9, 0
+            r["ops"] = 10 ** 9 if n_tick else 0        # never under-estimated
+        else:
+            r["errs"] = r["errs"] + n_err if not renewed else -10 ** 9     # unknown until the next reset of the counter
+            if phase not in ("P", "T"):
+                r["ops"] += n_tick
+            for x, rr in ((ta, rets[0]), (tb, rets[-1])):
+                if canon.get(x[0], x[0]) == "tick" and rr == "1" and (x == ["tickd"] or x[1:] == ["1"]):
+                    r["unit_true"] += 1
+            if renewed:
+                r["unit_true"] = 0
+            elif r["unit_true"] > maxo:
+                V("hayflick", f"at most {maxo} unit ticks report True between renewals", str(r["unit_true"]), i)
+            r["last_touch"] = now
+        if ph == "A" and r["start_at"] is None:
+            r["start_at"] = now
+        r["phase"], r["length"] = ph, ln
 
     def nontrivial(self, case, obs):
         return any(">" in o for o in obs)
